@@ -391,8 +391,7 @@ class _Expression:
 
 
 class _Selectable:
-    class Subquery:
-        pass
+    pass
 
 
 class _Sql:
@@ -737,3 +736,193 @@ def _den_func(x, level):
             return NV(none, (f["nn_any"] if name == "MAX" else f["nn_all"])(g))
         return NV(none, (f["nn_max"] if name == "MAX" else f["nn_min"])(g))
     raise Unsupported(f"SQL function {name}")
+
+
+# ---------------------------------------------------------------------------------
+# structural model of FROM objects and SELECT statements (table-level obligations)
+
+import itertools as _it
+
+_tid = _it.count()
+
+
+class _ColColl:
+    def __init__(self, cols):
+        self._cols = dict(cols)  # name -> SX column
+
+    def get(self, name, default=None):
+        return self._cols[name] if name in self._cols else default
+
+    def __getitem__(self, name):
+        if name not in self._cols:
+            raise KeyError(name)
+        return self._cols[name]
+
+    def __iter__(self):
+        return iter(self._cols.values())
+
+    def values(self):
+        return list(self._cols.values())
+
+    def keys(self):
+        return list(self._cols.keys())
+
+    def __len__(self):
+        return len(self._cols)
+
+
+class FromModel:
+    """sqa.Table / Alias / Join / Subquery"""
+
+    def __init__(self, kind, name=None, columns=None, **info):
+        self.kind = kind
+        self.name = name
+        self.info = info
+        self.id = next(_tid)
+        self.columns = _ColColl(columns or {})
+        self.c = self.columns
+
+    def __repr__(self):
+        return f"From[{self.kind}:{self.name}#{self.id}]"
+
+    def select(self):
+        return SelectModel(self)
+
+    def alias(self, name=None):
+        cols = {n: _retable(c, None) for n, c in self.columns._cols.items()}
+        f = FromModel("alias", name, cols, of=self)
+        for c in cols.values():
+            c.table = f
+        return f
+
+    def join(self, right, onclause=None, isouter=False, full=False):
+        cols = dict(self.columns._cols)
+        for n, c in right.columns._cols.items():
+            cols.setdefault(n, c)
+        return FromModel("join", None, cols, left=self, right=right, on=onclause, isouter=isouter, full=full)
+
+    @property
+    def original(self):
+        return self.info.get("select")
+
+
+def _retable(c, table):
+    x = SX("column", c.args[0], type_=c.type)
+    x.nv = getattr(c, "nv", None)
+    x.table = table
+    return x
+
+
+class Subquery(FromModel):
+    pass
+
+
+_Selectable.Subquery = Subquery
+
+
+def base_table(name, colnames, types=None):
+    cols = {}
+    f = FromModel("base", name)
+    for i, n in enumerate(colnames):
+        c = SX("column", n, type_=(types[i] if types else _sa.Integer()))
+        c.table = f
+        cols[n] = c
+    f.columns = _ColColl(cols)
+    f.c = f.columns
+    return f
+
+
+class SelectModel:
+    def __init__(self, from_, **parts):
+        self.from_ = from_
+        self.parts = {"where": (), "group_by": (), "having": (), "limit": None, "offset": None, "order_by": (), "cols": None}
+        self.parts.update(parts)
+
+    def _with(self, **kw):
+        p = dict(self.parts)
+        p.update(kw)
+        return SelectModel(self.from_, **p)
+
+    def select_from(self, t):
+        return SelectModel(t, **self.parts)
+
+    def where(self, *preds):
+        return self._with(where=self.parts["where"] + tuple(preds))
+
+    def group_by(self, *cols):
+        return self._with(group_by=self.parts["group_by"] + tuple(cols))
+
+    def having(self, *preds):
+        return self._with(having=self.parts["having"] + tuple(preds))
+
+    def limit(self, n):
+        return self._with(limit=n)
+
+    def offset(self, n):
+        return self._with(offset=n)
+
+    def order_by(self, *keys):
+        return self._with(order_by=self.parts["order_by"] + tuple(keys))
+
+    def with_only_columns(self, *cols):
+        return self._with(cols=tuple(cols))
+
+    @property
+    def selected_columns(self):
+        cols = self.parts["cols"] if self.parts["cols"] is not None else tuple(self.from_.columns)
+        out = {}
+        lst = []
+        for c in cols:
+            lst.append(c)
+        return _SelCols(lst)
+
+    def subquery(self, name=None):
+        cols = {}
+        f = Subquery("subquery", name, {}, select=self)
+        for c in self.selected_columns:
+            n = c.name
+            if n in cols:
+                raise Unsupported(f"subquery with duplicate column name {n!r}")
+            x = SX("column", n, type_=c.type)
+            x.table = f
+            cols[n] = x
+        f.columns = _ColColl(cols)
+        f.c = f.columns
+        return f
+
+    def compile(self, *a, **k):
+        raise Unsupported("compiling a model SELECT to text")
+
+
+class _SelCols:
+    def __init__(self, lst):
+        self._lst = lst
+
+    def values(self):
+        return list(self._lst)
+
+    def __iter__(self):
+        return iter(self._lst)
+
+    def __len__(self):
+        return len(self._lst)
+
+
+class CompoundModel(SelectModel):
+    def __init__(self, op, selects):
+        self.op = op
+        self.selects = selects
+        self.from_ = None
+        self.parts = {"cols": None}
+
+    @property
+    def selected_columns(self):
+        return self.selects[0].selected_columns
+
+
+def union(*selects):
+    return CompoundModel("union", selects)
+
+
+def union_all(*selects):
+    return CompoundModel("union_all", selects)
